@@ -53,8 +53,6 @@ func c14Extra(e error) (string, error, bool) {
 	switch e {
 	case errCantNestTx:
 		return "nest", nil, true
-	case context.Canceled:
-		return "ctx", nil, true
 	case breaker.ErrServiceUnavailable:
 		return "breaker", nil, true
 	}
@@ -71,15 +69,51 @@ func c14BodyErr(cls string) error {
 	return nil
 }
 
-func c14Sess(s Session) verifc14.Sess {
+// c14Sess: what a body does with its session. With a context (TransactCtx) every statement is made with the
+// context the body was handed (ExecCtx / QueryRowsCtx / nested TransactCtx), without one through the
+// context-less methods.
+func c14Sess(ctx context.Context, s Session, end func(bool)) verifc14.Sess {
+	nested := func(err error, ran bool) error {
+		if ran {
+			return errors.New("c14: nested body ran")
+		}
+		return err
+	}
 	return verifc14.Sess{
 		Exec: func(q string) error {
+			if ctx != nil {
+				_, err := s.ExecCtx(ctx, q)
+				return err
+			}
 			_, err := s.Exec(q)
+			return err
+		},
+		PExec: func(q string) error {
+			if ctx != nil {
+				st, err := s.PrepareCtx(ctx, q)
+				if err != nil {
+					return err
+				}
+				defer st.Close()
+				_, err = st.ExecCtx(ctx)
+				return err
+			}
+			st, err := s.Prepare(q)
+			if err != nil {
+				return err
+			}
+			defer st.Close()
+			_, err = st.Exec()
 			return err
 		},
 		Query: func(q string) error {
 			var out []string
-			err := s.QueryRows(&out, q)
+			var err error
+			if ctx != nil {
+				err = s.QueryRowsCtx(ctx, &out, q)
+			} else {
+				err = s.QueryRows(&out, q)
+			}
 			if err == nil && (len(out) != 1 || out[0] != "c14") {
 				return fmt.Errorf("c14: unexpected rows %v", out)
 			}
@@ -91,11 +125,21 @@ func c14Sess(s Session) verifc14.Sess {
 				ran = true
 				return nil
 			})
-			if ran {
-				return errors.New("c14: nested body ran")
-			}
-			return err
+			return nested(err, ran)
 		},
+		NestCtx: func() error {
+			ran := false
+			c := ctx
+			if c == nil {
+				c = context.Background()
+			}
+			err := NewSqlConnFromSession(s).TransactCtx(c, func(context.Context, Session) error {
+				ran = true
+				return nil
+			})
+			return nested(err, ran)
+		},
+		End: end,
 	}
 }
 
@@ -109,11 +153,12 @@ func c14Gen(r *verifh.Rng) []verifh.Section {
 	}
 	secs = append(secs, verifh.Section{Cfg: "via=onconn accept=none rec=0", Ops: verifc14.Exhaustive("ctx", exLen)})
 	secs = append(secs, verifh.Section{Cfg: "via=named accept=user rec=1", Ops: verifc14.Exhaustive("plain", verifh.Scale(2, 4))})
+	secs = append(secs, verifh.Section{Cfg: "via=named accept=none rec=1", Ops: verifc14.Exhaustive("ctx", verifh.Scale(1, 3))})
 	nsec := verifh.Scale(80, 1500)
 	for i := 0; i < nsec; i++ {
 		via := "fromdb"
 		rec := 1
-		apis := []string{"plain", "ctx", "ctx", "ctxdone"}
+		apis := []string{"plain", "ctx", "ctx", "ctx", "ctxdone", "ctxdead"}
 		switch x := r.Intn(100); {
 		case x < 50:
 		case x < 65:
@@ -173,36 +218,54 @@ func TestVerifC14(t *testing.T) {
 		default:
 			panic("c14: bad via " + via)
 		}
-		call := func(api string, brkAllow bool, body func(verifc14.Sess) error) (error, string) {
-			fnCtx := func(_ context.Context, s Session) error { return body(c14Sess(s)) }
-			if via == "onconn" {
-				return transactOnConn(context.Background(), db, begin, fnCtx), "-"
+		if via == "named" {
+			// a panicking Commit/Rollback of the driver leaves its connection checked out for good
+			// (database/sql never gets to release it): do not let the pool limit of 64 block the section
+			if raw, err := sc.RawDB(); err == nil {
+				raw.SetMaxOpenConns(0)
 			}
-			mark := "?"
-			var rb *c14RecBreaker
-			if rec {
-				rb = &c14RecBreaker{Breaker: breaker.NewBreaker(), allow: brkAllow, mark: "-"}
-				sc.(*commonSqlConn).brk = rb
-			}
-			var err error
-			switch api {
-			case "plain":
-				err = sc.Transact(func(s Session) error { return body(c14Sess(s)) })
-			case "ctx":
-				ctx, cancel := context.WithCancel(context.Background())
-				err = sc.TransactCtx(ctx, fnCtx)
-				cancel()
-			case "ctxdone":
-				ctx, cancel := context.WithCancel(context.Background())
-				cancel()
-				err = sc.TransactCtx(ctx, fnCtx)
+		}
+		call := func(api, kind string, brkAllow bool, body func(verifc14.Sess) error, mark *string) error {
+			// the context of the call: a real cancellable one, or (for a deadline) one the harness ends itself
+			var ctx context.Context
+			var end func(bool)
+			switch {
+			case api == "plain":
+			case kind == "d" || api == "ctxdead":
+				c := verifc14.NewCtx()
+				ctx, end = c, func(deadline bool) {
+					if deadline {
+						c.Finish(context.DeadlineExceeded)
+					} else {
+						c.Finish(context.Canceled)
+					}
+				}
 			default:
-				panic("c14: bad api " + api)
+				c, cancel := context.WithCancel(context.Background())
+				defer cancel()
+				ctx, end = c, func(bool) { cancel() }
 			}
-			if rb != nil {
-				mark = rb.mark
+			switch api {
+			case "ctxdone":
+				end(false)
+			case "ctxdead":
+				end(true)
 			}
-			return err, mark
+			fnCtx := func(c context.Context, s Session) error { return body(c14Sess(c, s, end)) }
+			if via == "onconn" {
+				*mark = "-"
+				return transactOnConn(ctx, db, begin, fnCtx)
+			}
+			*mark = "?"
+			if rec {
+				rb := &c14RecBreaker{Breaker: breaker.NewBreaker(), allow: brkAllow, mark: "-"}
+				sc.(*commonSqlConn).brk = rb
+				defer func() { *mark = rb.mark }()
+			}
+			if api == "plain" {
+				return sc.Transact(func(s Session) error { return body(c14Sess(nil, s, nil)) })
+			}
+			return sc.TransactCtx(ctx, fnCtx)
 		}
 		h := verifc14.Hooks{Call: call, BodyErr: c14BodyErr, Extra: c14Extra, Plan: drv.P,
 			Texts: map[string]string{errCantNestTx.Error(): "nest"}}
